@@ -40,13 +40,22 @@ func c12VoteSpecs(quick bool) []hapi.ArbSpec {
 		// the newest entry is younger than the last status poll: everybody's cached view of member 1 (its own too) is one behind
 		{Name: "3-data-weight0-newest-log-not-yet-polled", Members: []hapi.ArbMember{d(1, 1), {Weight: 0, Log: 2, StaleBy: 1}, d(1, 1)}, Candidates: []int{1, 2}, Rounds: 1, MaxLoss: 1},
 		{Name: "3-data-newest-log-not-yet-polled", Members: []hapi.ArbMember{d(1, 1), {Weight: 1, Log: 2, StaleBy: 1}, d(1, 1)}, Candidates: []int{0, 2}, Rounds: 1, MaxLoss: 1},
-		// the leader (member 0) has died after a record at position 2 was acknowledged in majority mode (2 of the 3 data
+		// (positions above the wrap-around here: an arbiter reports the all-zero position, which the comparison reads as
+		// newer than any position in the upper half of the index space)
+		// the leader (member 0) has died after a record at position 3 was acknowledged in majority mode (2 of the 3 data
 		// members: itself and member 1); member 2 lags; two arbiters vote
-		{Name: "3-data-2-arbiters-leader-dead-acked-record", Members: []hapi.ArbMember{d(1, 2), d(1, 2), d(1, 1), arb, arb}, Candidates: []int{2, 1}, Down: [][2]int{{0, 1}, {0, 2}, {0, 3}, {0, 4}}, Rounds: 1, MaxLoss: 1, AckedLog: 2},
+		{Name: "3-data-2-arbiters-leader-dead-acked-record", Members: []hapi.ArbMember{d(1, 3), d(1, 3), d(1, 2), arb, arb}, Candidates: []int{2, 1}, Down: [][2]int{{0, 1}, {0, 2}, {0, 3}, {0, 4}}, Rounds: 1, MaxLoss: 1, AckedLog: 3},
 		// the same, but the others have not yet been told member 1's latest position (positions are announced periodically) and the link between members 1 and 2 is down
-		{Name: "3-data-2-arbiters-leader-dead-acked-record-not-yet-announced", Members: []hapi.ArbMember{{Weight: 1, Log: 2, StaleBy: 1}, {Weight: 1, Log: 2, StaleBy: 1}, d(1, 1), arb, arb}, Candidates: []int{2, 1}, Down: [][2]int{{0, 1}, {0, 2}, {0, 3}, {0, 4}, {1, 2}}, Rounds: 1, MaxLoss: 1, AckedLog: 2},
+		{Name: "3-data-2-arbiters-leader-dead-acked-record-not-yet-announced", Members: []hapi.ArbMember{{Weight: 1, Log: 3, StaleBy: 1}, {Weight: 1, Log: 3, StaleBy: 1}, d(1, 2), arb, arb}, Candidates: []int{2, 1}, Down: [][2]int{{0, 1}, {0, 2}, {0, 3}, {0, 4}, {1, 2}}, Rounds: 1, MaxLoss: 1, AckedLog: 3},
 		{Name: "4-members-weight0-and-arbiter", Members: []hapi.ArbMember{d(1, 1), d(0, 1), d(2, 2), arb}, Candidates: []int{0, 1}, Rounds: 1, MaxLoss: 0},
 	}
+	// member 0 is a running leader; members 1 and 2 have just been restarted from their saved metadata (which carries no
+	// roles) and both stand before its announcement has reached them: whoever the leader itself has answered must refuse
+	lead := hapi.ArbMember{Weight: 1, Log: 1, Leader: true}
+	specs = append(specs,
+		hapi.ArbSpec{Name: "3-data-running-leader-others-just-restarted", Members: []hapi.ArbMember{lead, d(1, 1), d(1, 1)}, Candidates: []int{1, 2}, Rounds: 1, MaxLoss: 1},
+		hapi.ArbSpec{Name: "3-data-running-leader-one-candidate-two-rounds", Members: []hapi.ArbMember{lead, d(1, 1), d(1, 1)}, Candidates: []int{1}, Rounds: 2, MaxLoss: 1, Restarts: 1},
+	)
 	specs = append(specs,
 		hapi.ArbSpec{Name: "3-data-member-restart", Members: []hapi.ArbMember{d(1, 1), d(1, 1), d(1, 1)}, Candidates: []int{0, 1}, Rounds: 1, MaxLoss: 1, Restarts: 1},
 		hapi.ArbSpec{Name: "3-data-member-restart-two-losses", Members: []hapi.ArbMember{d(1, 1), d(1, 1), d(1, 1)}, Candidates: []int{0, 2}, Rounds: 1, MaxLoss: 2, Restarts: 1},
@@ -156,10 +165,18 @@ func c12VoteMaster(c *Ctx, spec hapi.ArbSpec, maxStates int) (*arbStats, string)
 		}
 		for _, w := range r.Obs.Winners {
 			st.Winners[w] = true
-			if spec.AckedLog > 0 && !reported["C12:acknowledged-record-lost"] {
+			ackSig := "C12:acknowledged-record-lost"
+			for _, m := range spec.Members {
+				if m.StaleBy > 0 {
+					// its own signature: the other members' knowledge of the acknowledging member's position predates the record
+					// and that member cannot be reached by the candidate
+					ackSig = "C12:acknowledged-record-lost/position-not-yet-announced-and-acknowledging-member-unreachable"
+				}
+			}
+			if spec.AckedLog > 0 && !reported[ackSig] {
 				for i, m := range spec.Members {
 					if strings.Contains(w, fmt.Sprintf("->127.0.0.1:%d#", 5700+i)) && m.Log < spec.AckedLog {
-						v := explore.Violation{Sig: "C12:acknowledged-record-lost", Msg: fmt.Sprintf("%s: member %d (log position %d) gathered a commit majority although a record at position %d had been acknowledged by the ack quorum (the dead leader and another data member) before the leader died", spec.Name, i, m.Log, spec.AckedLog)}
+						v := explore.Violation{Sig: ackSig, Msg: fmt.Sprintf("%s: member %d (log position %d) gathered a commit majority although a record at position %d had been acknowledged by the ack quorum (the dead leader and another data member) before the leader died", spec.Name, i, m.Log, spec.AckedLog)}
 						if kn := c.IsKnown(v.Sig); kn != nil {
 							st.Known[v.Sig]++
 						} else {
